@@ -396,6 +396,12 @@ type RunOpts struct {
 	// caller does who keeps opts := []Option{...} for a whole corpus. Only meaningful when the
 	// previous call had the same option set.
 	ReuseOpts bool
+	// Shadowed: the option list starts with the OPPOSITE value of every boolean option and another
+	// budget (what a wrapper does that prepends its own defaults to the caller's options); the
+	// later occurrences win, so the call itself must behave exactly like the plain one.
+	Shadowed bool
+	// Doubled: every option is given twice with the same value.
+	Doubled bool
 }
 
 // ErrInfo describes one element of the returned error list.
